@@ -2,7 +2,7 @@
 # keep_seed.sh <Cxx> <n>: take the seeded change from /tmp/mut_<Cxx>_out (or an existing seeded/<Cxx>-<n>/),
 # apply it to a FRESH worktree of /repo's current HEAD, confirm the demo (passes on /repo, fails on the
 # changed tree), run the touched-module check against the changed tree, store everything under seeded/.
-id=$1; n=${2:-1}; out=/tmp/mut_${id}_out; dst=/verif/seeded/$id-$n; wt=/tmp/seedwt_$id
+id=$1; n=${2:-1}; out=/tmp/mut_${id}${4}_out; dst=/verif/seeded/$id-$n; wt=/tmp/seedwt_$id
 mkdir -p $dst
 if [ -f $out/patch.diff ]; then cp $out/patch.diff $dst/patch.diff; cp $out/demo.py $dst/demo.py; cp $out/notes.md $dst/notes.md 2>/dev/null; fi
 git -C /repo worktree remove --force $wt 2>/dev/null
